@@ -18,4 +18,5 @@ for d in /verif/seeded/*/; do
   git -C /repo checkout -- .
 done
 cp /tmp/allseeds-ev/*.json /verif/evidence/; rm -rf /tmp/allseeds-ev
+go clean -cache # every seeded tree leaves its own objects in the build cache (some 100 GB after a few runs)
 exit $missed
